@@ -12,6 +12,7 @@ CONSTANTS T = 8
           Unaligned = FALSE
           MaxHist = 3
           HistLen = 2
+          CaseWorlds = {2}
 INVARIANTS RespIsDirect C42_ExtentsHoldDirectData C42_ExtentsOrdered
 PROPERTIES C42_ResponsesAreDirect
 VIEW View
